@@ -7,7 +7,7 @@ import (
 	"verif/world"
 )
 
-// configVariants returns, for the thorough tier, copies of the scenarios under
+// configVariants returns copies of the scenarios (quick tier: of the first one only) under
 // deployment choices an application may legitimately make and that change how
 // the library's code paths compose:
 //   - a client-state store that returns a nil ClientState for a browser without state,
@@ -15,20 +15,14 @@ import (
 //     changes queued before the error; the silent default drops them),
 //   - an empty Paths.Mount.
 //
-// The oracles are unchanged. Depth is reduced by one to keep the tier's budget.
+// The oracles are unchanged. In the thorough tier (all scenarios) and for the fault variants the depth is reduced by one.
 func configVariants(scs []engine.Scenario, tier string, which ...string) []engine.Scenario {
 	if tier != "thorough" {
-		// quick tier: only the fault variant, and only of the first scenario given
-		fv := ""
-		for _, v := range which {
-			if v == "faults" || strings.HasPrefix(v, "faults:") {
-				fv = v
-			}
-		}
-		if len(scs) == 0 || fv == "" {
+		// quick tier: every requested variant, but only of the first scenario given
+		if len(scs) == 0 {
 			return nil
 		}
-		scs, which = scs[:1], []string{fv}
+		scs = scs[:1]
 	}
 	var out []engine.Scenario
 	for _, sc := range scs {
@@ -56,6 +50,11 @@ func configVariants(scs []engine.Scenario, tier string, which ...string) []engin
 				c.Cfg.Err500 = true
 			case "nomount":
 				c.Cfg.NoMount = true
+			case "json":
+				if c.Cfg.JSON {
+					continue
+				}
+				c.Cfg.JSON = true
 			case "faults":
 				// every request that presents a valid credential also runs with a storage failure at
 				// its first or its second Load / Save, or its first token-table call
@@ -77,8 +76,8 @@ func configVariants(scs []engine.Scenario, tier string, which ...string) []engin
 					return append(acts, withFaults(acts, markers, []string{"db.Save", "db.Load", "db.Save#2", "db.Load#2"})...)
 				}
 			}
-			if c.Depth > 3 {
-				c.Depth--
+			if c.Depth > 3 && (tier == "thorough" || strings.HasPrefix(v, "faults")) {
+				c.Depth-- // thorough: keeps the tier's budget; the fault variants multiply the action menu
 			}
 			if sc.ShardN > 1 {
 				out = append(out, engine.Sharded(c, sc.ShardN)...)
@@ -135,4 +134,14 @@ func lastIndexByte(s string, b byte) int {
 		}
 	}
 	return -1
+}
+
+// from returns the scenarios starting at the one with the given name (prefix match; sharded names carry a suffix).
+func from(scs []engine.Scenario, name string) []engine.Scenario {
+	for i, sc := range scs {
+		if strings.HasPrefix(sc.Name, name) {
+			return scs[i:]
+		}
+	}
+	panic("no scenario " + name)
 }
